@@ -1,14 +1,14 @@
 #!/bin/bash
-# Like try_seeded_alt.sh for C19: builds a scratch copy of /verif/fuzz against the scratch worktree /tmp/mh/repo, so that
+# Like try_seeded_alt.sh for C19: builds a scratch copy of /verif/fuzz against the scratch worktree ${MH:-/tmp/mh}/repo, so that
 # /repo is not touched.  usage: try_seeded_alt_c19.sh <seeded dir> [quick|thorough]
 d=$1; tier=${2:-quick}
-cd /tmp/mh/repo && git checkout -q -- . && git apply /verif/seeded/$d/patch.diff || { echo "patch does not apply"; exit 3; }
-rsync -a --exclude target --exclude target-nosan --exclude Cargo.toml --exclude corpus --exclude artifacts /verif/fuzz/ /tmp/mh/fuzz/
-sed 's#path = "/repo"#path = "/tmp/mh/repo"#' /verif/fuzz/Cargo.toml > /tmp/mh/fuzz/Cargo.toml
-(cd /tmp/mh/fuzz && bash build.sh) >/tmp/mh/fuzzbuild.log 2>&1 || { tail -5 /tmp/mh/fuzzbuild.log; exit 3; }
-rsync -a --exclude target --exclude Cargo.toml /verif/harness/ /tmp/mh/harness/
-cd /tmp/mh/harness && cargo build --release --offline >/tmp/mh/build.log 2>&1 || { tail -5 /tmp/mh/build.log; exit 3; }
+cd ${MH:-/tmp/mh}/repo && git checkout -q -- . && git apply /verif/seeded/$d/patch.diff || { echo "patch does not apply"; exit 3; }
+rsync -a --exclude target --exclude target-nosan --exclude Cargo.toml --exclude corpus --exclude artifacts /verif/fuzz/ ${MH:-/tmp/mh}/fuzz/
+MHX=${MH:-/tmp/mh}; sed "s#path = \"/repo\"#path = \"$MHX/repo\"#" /verif/fuzz/Cargo.toml > $MHX/fuzz/Cargo.toml
+(cd ${MH:-/tmp/mh}/fuzz && bash build.sh) >${MH:-/tmp/mh}/fuzzbuild.log 2>&1 || { tail -5 ${MH:-/tmp/mh}/fuzzbuild.log; exit 3; }
+rsync -a --exclude target --exclude Cargo.toml /verif/harness/ ${MH:-/tmp/mh}/harness/
+cd ${MH:-/tmp/mh}/harness && cargo build --release --offline >${MH:-/tmp/mh}/build.log 2>&1 || { tail -5 ${MH:-/tmp/mh}/build.log; exit 3; }
 start=$(date +%s)
-VERIF_REPO=/tmp/mh/repo VERIF_OUT_DIR=/tmp/mh/out VERIF_FUZZ_DIR=/tmp/mh/fuzz ./target/release/verif C19 --tier $tier > /tmp/mh/try_$d.log 2>&1; rc=$?
-echo "$d C19 $tier exit=$rc wall=$(( $(date +%s) - start ))s :: $(grep -E '^  failure' /tmp/mh/try_$d.log | head -1 | cut -c1-300)"
-cd /tmp/mh/repo && git checkout -q -- .
+VERIF_REPO=${MH:-/tmp/mh}/repo VERIF_OUT_DIR=${MH:-/tmp/mh}/out VERIF_FUZZ_DIR=${MH:-/tmp/mh}/fuzz ./target/release/verif C19 --tier $tier > ${MH:-/tmp/mh}/try_$d.log 2>&1; rc=$?
+echo "$d C19 $tier exit=$rc wall=$(( $(date +%s) - start ))s :: $(grep -E '^  failure' ${MH:-/tmp/mh}/try_$d.log | head -1 | cut -c1-300)"
+cd ${MH:-/tmp/mh}/repo && git checkout -q -- .
